@@ -632,6 +632,8 @@ def run(chk):
     # macro/runtime boundary: what the expansion passes at each named hook parameter (read off emit_macros' quote! templates)
     from . import quotes
     quotes.boundary_rule(chk, P, "C01", {"__private_emit", "__private_emit_event", "__private_evt"}, 4)
+    # the event the pipeline hands on is rebuilt by builder steps (with_extent, map_props, ...): none may drop or cross-wire a field
+    common.builder_rules(chk, P, "C01", lambda b: b.key.startswith("emit_core::event::Event::<") or (b.self_ty or "").startswith("emit_core::event::Event<"), 6)
     if chk.tier == "thorough":
         # the no_std / no-alloc build of emit_core has its own copy of the pipeline
         try:
